@@ -66,6 +66,8 @@ ASSUMPTIONS = [
     "elementwise arithmetic and reductions compared with rtol 1e-12 of the largest magnitude (64 eps for float32 data) plus 1024 eps * sum|R| for re-associated sums; selections, rearrangements, r-r, where and max bitwise",
     "all observations of 'a value that is not R's' within one case (recompute, optimize-graph flag, derived program, forms) are one bucket realisation-differs|<node class>|<array-params|scalar-params>; exceptions are bucketed by type and innermost dask_array frame (or by the broken precondition when r advertises a _meta of the wrong rank)",
     "in-process rebuild and fresh-interpreter rebuild are judged only when R was stable inside the process",
+    "a random array whose .name changes between two reads is reported (name-unstable) and the case stops there: every optimisation loop compares names and would not terminate",
+    "a per-case watchdog (C23_WATCHDOG, default 300 s; a case normally takes ~0.1 s) skips and counts a case that hangs; it never produces a verdict, and a shard with hangs but no failure aborts as a harness error",
     "a distribution/kwarg combination the API rejects at call time is a rejection (counted); NotImplementedError is a refusal; any other exception at build or compute time of a derived program is a failure",
     "the consecutive-draws-differ check is applied only when the per-element collision probability bound p satisfies p**size <= 1e-12",
     "fresh-interpreter rebuilds are done for a batched sample of cases per shard (one subprocess per batch); a subprocess crash or timeout is a harness error",
@@ -642,7 +644,7 @@ class CaseHang(BaseException):
     shard/replay aborts with a harness error that names the case."""
 
 
-WATCHDOG = int(os.environ.get("C23_WATCHDOG", "600") or "600")
+WATCHDOG = int(os.environ.get("C23_WATCHDOG", "300") or "300")
 
 
 @contextlib.contextmanager
@@ -1245,6 +1247,7 @@ def run_shard(spec, seed):
     col = Collector()
     budget = {"batches": spec.get("fresh_batches", 2), "size": spec.get("fresh_batch", 12)}
     pending = []
+    hangs = []
 
     def flush():
         if not pending:
@@ -1266,6 +1269,12 @@ def run_shard(spec, seed):
             case["fresh"] = False
         try:
             labs, fails, obs = run_case(case)
+        except CaseHang as e:
+            # never a verdict, but it must not hide the failures of the other cases either: skip and count;
+            # a shard that saw hangs and no failure at all aborts below (harness error)
+            hangs.append(str(e))
+            col.reject("hang:watchdog")
+            return
         except Refused as e:
             col.reject(str(e))
             return
@@ -1283,6 +1292,8 @@ def run_shard(spec, seed):
 
     body()
     flush()
+    if hangs and not col.failures:
+        raise RuntimeError(f"{len(hangs)} case(s) hit the {WATCHDOG}s watchdog and the shard found no failure: {hangs[0]}")
     return col.result()
 
 
